@@ -49,6 +49,8 @@ package didweb
 //@        && isNilIface(ret(call http.NewRequest #1).1) && arg(1) == ret(call http.NewRequest #1).0
 //@        && arg(call http.NewRequest #1, 0) == "GET" && arg(call http.NewRequest #1, 1) == ret(call (*url.URL).String #1)
 //@        && arg(call (*url.URL).String #1, 0) == ret(call DIDToURL #1).0 && isNilIface(arg(call http.NewRequest #1, 2))
+//@   ensures [parsed-behind-the-null-entry-screen] isNilIface(result.2) ==> did(call resolver.UnmarshalDocument #1) && isNilIface(ret(call resolver.UnmarshalDocument #1))
+//@        && arg(call resolver.UnmarshalDocument #1, 0) == ret(call io.ReadAll #1).0 && arg(call resolver.UnmarshalDocument #1, 1) == result.0
 //@   ensures [document-id-is-the-did-asked-for] isNilIface(result.2) ==> result.0 != nil && ret(call (did.DID).Equals #1) == true
 //@        && same(arg(call (did.DID).Equals #1, 1), id) && same(arg(call (did.DID).Equals #1, 0), result.0.ID)
 //@   ensures [only-2xx-and-allowed-content-types] isNilIface(result.2) ==> isNilIface(ret(call (core.HTTPRequestDoer).Do #1).1)
